@@ -1,5 +1,5 @@
 From ZV Require Import Prelude GoSem Plasma.
-From ZV.gen Require Import Consts Pure.
+From ZV.gen Require Import Consts Pure PurePlasma.
 Open Scope Z_scope.
 Ltac Zify.zify_post_hook ::= Z.div_mod_to_equations.
 
